@@ -91,6 +91,9 @@ class EvalModel(SymVal):
                         return Contract(lambda it, s, **kw: (self.kw_seen.append((name, dict(kw))), GenList(self.family))[1], f'BaseModel.{name} (values of the instances)')
                     fi = source.of_function(v); self.inlined[fi.key] = fi
                     return BoundSource(fi, v, c, self)
+                from pyvc.interp import private_helper as _ph
+                _ok, _v = _ph(it, self.cls, name, self, getattr(self, 'inlined', None))
+                if _ok: return _v
                 raise Outside(f'Model.{name} (no contract)')
         raise PyExc(AttributeError, (name,))
     def sym_super_getattr(self, it, defcls, name):
